@@ -842,5 +842,26 @@ fn generate(rng: &mut Rng, n: usize, tier: &str, out: &mut dyn Write) {
         }
         t.extend(["open", "dump"].iter().map(|s| s.to_string()));
         writeln!(out, "scen {}", t.join(" ")).unwrap();
+        // thorough: compactions big enough to split leaves of the live property tree, sampled crash points
+        if tier == "thorough" && c % 4 == 0 {
+            let a = 150 + rng.below(200);
+            let b = 90 + rng.below(250);
+            for _ in 0..6 {
+                let var = match rng.below(4) {
+                    0 | 1 => "p".to_string(),
+                    2 => format!("w{}.0", rng.below(8)),
+                    _ => format!("w{}.0.t{}", rng.below(4), rng.below(3)),
+                };
+                writeln!(
+                    out,
+                    "scenq open t1.1.{} compact t1.1.{} X{}.{} compact open dump t1.0.1 drop open dump",
+                    a,
+                    b,
+                    rng.below(6 * b + 60),
+                    var
+                )
+                .unwrap();
+            }
+        }
     }
 }
